@@ -359,3 +359,66 @@ Example C04_example_unclosed_label :
   preprocess [97; 32; 47; 42]%N = Err (unclosed 2) /\
   labels_of (sources_of (CUnclosedComment 0 2)) = Ok [mk true 0 2 4].
 Proof. split; reflexivity. Qed.
+
+(* ---- provenance of the statement metas through IR lifting ----
+   Model.LiftFull mirrors try_lift_impl (unique-variable renaming, AST -> IR
+   lifting with metas, block construction) on the real syntax tree and is
+   compared with the real `into_cfg` on every run (engine `liftfull`, run by C13's
+   check).  [lift_to_ir] is that mirror followed by the erasure onto Model.Ir;
+   [lifted_stmts body] are the statements of the body that are not blocks /
+   initialization blocks, in source order.  The statement metas of the lifted
+   graph, read block by block, are exactly their metas, in that order: every IR
+   statement has the location of exactly one source statement. *)
+Require Model.LiftFull Proofs.LiftFullC04.
+
+Theorem C04_liftfull_stmt_metas_from_ast : forall kind params pfile ploc body c,
+  Model.LiftFull.lift_to_ir kind params pfile ploc body = Ok c ->
+  cfg_stmt_metas c
+  = map Proofs.LabelsDesugar.ir_meta_of (map Model.Ast.stmt_meta (Model.LiftFull.lifted_stmts body)).
+Proof. exact Proofs.LiftFullC04.lift_stmt_metas_from_ast. Qed.
+Print Assumptions C04_liftfull_stmt_metas_from_ast.
+
+(* in the form of hypothesis 3 of C04_labels_wellformed_through_desugaring_and_ssa
+   (without its "or the empty default range" alternative) *)
+Theorem C04_liftfull_stmt_metas_in_body : forall kind params pfile ploc body c,
+  Model.LiftFull.lift_to_ir kind params pfile ploc body = Ok c ->
+  forall m, In m (cfg_stmt_metas c) ->
+    In m (map Proofs.LabelsDesugar.ir_meta_of (Spec.ExpandSpec.stmt_metas body)).
+Proof. exact Proofs.LiftFullC04.lift_stmt_metas_in_body. Qed.
+Print Assumptions C04_liftfull_stmt_metas_in_body.
+
+(* The end-to-end statement with the desugarer's, the lifting's and the SSA
+   construction's provenance all proved: the hypothesis about the graph before SSA
+   is now only that the lifting mirror produced it.  (Scope as before: constructors
+   whose nodes are STATEMENTS of the SSA form.) *)
+Theorem C04_labels_wellformed_through_desugaring_lifting_and_ssa :
+  forall (P : N -> N -> Prop) env lib body body' kind params pfile ploc frontier children c c' ctor ls l,
+    Forall (fun m => P (Model.Ast.m_start m) (Model.Ast.m_end m)) (Spec.ExpandSpec.stmt_metas body) ->
+    Model.Desugar.desugar_template env lib body = Model.Desugar.DOk body' ->
+    Model.LiftFull.lift_to_ir kind params pfile ploc body' = Ok c ->
+    into_ssa frontier children c = SOk c' ->
+    P 0%N 0%N ->
+    (forall m, In m (nodes_of ctor) -> In m (cfg_stmt_metas c')) ->
+    (forall r, In r (parser_ranges_of ctor) -> P (fst r) (snd r)) ->
+    labels_of (sources_of ctor) = Ok ls -> In l ls -> P (l_start l) (l_end l).
+Proof. exact Proofs.LiftFullC04.labels_wellformed_through_desugaring_lifting_and_ssa. Qed.
+Print Assumptions C04_labels_wellformed_through_desugaring_lifting_and_ssa.
+
+(* `template T() { signal input a; signal output b; if (a) { b <-- a; } }` (the
+   declarations inside initialization blocks, as the parser builds them): five IR
+   statements, whose metas are those of the five source statements *)
+Example C04_example_liftfull_metas :
+  let m a b := Model.Ast.Meta a b (Some 0%N) in
+  let va := Model.Ast.Variable_ (m 40 41)%N "a" [] in
+  let body := Model.Ast.Block (m 13 70)%N
+    [Model.Ast.InitializationBlock (m 15 29)%N (Model.Ast.VSignal Model.Ast.SInput [])
+       [Model.Ast.Declaration (m 15 29)%N (Model.Ast.VSignal Model.Ast.SInput []) "a" [] false];
+     Model.Ast.InitializationBlock (m 31 46)%N (Model.Ast.VSignal Model.Ast.SOutput [])
+       [Model.Ast.Declaration (m 31 46)%N (Model.Ast.VSignal Model.Ast.SOutput []) "b" [] false];
+     Model.Ast.IfThenElse (m 48 68)%N va
+       (Model.Ast.Block (m 55 68)%N [Model.Ast.Substitution (m 57 65)%N "b" [] Model.Ast.AssignSignal va]) None] in
+  match Model.LiftFull.lift_to_ir KTemplate [] (Some 0%N) (0%N, 0%N) body with
+  | Ok c => cfg_stmt_metas c
+  | _ => []
+  end = [C04_ex_m 15 29; C04_ex_m 31 46; C04_ex_m 48 68; C04_ex_m 57 65].
+Proof. vm_compute. reflexivity. Qed.
